@@ -595,6 +595,14 @@ impl Arena {
       size = allocated;
     }
 
+    // the capacity is a `u32`: a larger request cannot be honoured and must not wrap around
+    if size > u32::MAX as usize {
+      return Err(std::io::Error::new(
+        std::io::ErrorKind::InvalidInput,
+        "the ARENA cannot be larger than u32::MAX bytes",
+      ));
+    }
+
     unsafe {
       let memory = self.inner.as_mut();
       memory.truncate(allocated, size)?;
@@ -613,6 +621,9 @@ impl Arena {
     if allocated >= size {
       size = allocated;
     }
+
+    // the capacity is a `u32`: a larger request must not wrap around
+    size = size.min(u32::MAX as usize);
 
     unsafe {
       let memory = self.inner.as_mut();
